@@ -9,3 +9,4 @@ pub mod corrupt;
 pub mod models;
 pub mod rdhwalk;
 pub mod faults;
+pub mod alpide_model;
